@@ -633,6 +633,8 @@ def inline_new_helpers(prog, inventory, repo_prefix):
         kind = _eligible(None, pseudo, f)
         if kind:
             new[f["key"]] = (f, pseudo, kind)
+        elif not any("auto" in p_.get("t", "") for p_ in f.get("params", [])):
+            new[f["key"]] = (f, pseudo, "return-only")      # inlinable only where its value is returned at once: `return f(..);`
     if not new:
         return 0
     total = 0
@@ -674,6 +676,28 @@ def inline_new_helpers(prog, inventory, repo_prefix):
                     n["decls"] = [rewrite(x, False) if isinstance(x, dict) else x for x in n["decls"]]
                 if isinstance(n.get("handlers"), list):
                     n["handlers"] = [rewrite(x, False) if isinstance(x, dict) else x for x in n["handlers"]]
+                if n.get("k") == "ReturnStmt" and isinstance(n.get("value"), dict):
+                    # `return helper(args);`: the helper's own return statements return from the caller with the same value
+                    rv = strip(n["value"])
+                    while rv.get("k") in ("ExprWithCleanups", "MaterializeTemporaryExpr", "CXXBindTemporaryExpr", "ImplicitCastExpr", "ParenExpr") or (rv.get("k") == "CXXConstructExpr" and len([c_ for c_ in rv.get("c", []) if isinstance(c_, dict)]) == 1):
+                        ch_ = [c_ for c_ in rv.get("c", []) if isinstance(c_, dict)]
+                        if len(ch_) != 1:
+                            break
+                        rv = strip(ch_[0])
+                    hit3, args3 = site(rv)
+                    if hit3 is not None and hit3[0] is not g and (hit3[0].get("ret") or "").replace("const ", "").strip() == (g.get("ret") or "").replace("const ", "").strip() and hit3[0].get("ret"):
+                        f3, pseudo3, _k3 = hit3
+                        fake3 = {"c": [None, None] + list(args3), "l": rv.get("l"), "t": rv.get("t")}
+                        body3 = pseudo3
+                        if f3.get("file") != g.get("file"):
+                            inl.site += 1
+                            mapping3 = {d: _FRESH * 7 * inl.site + (d if isinstance(d, int) else hash(d) % _FRESH) for d in _all_dids(f3["body"]) | {p["did"] for p in f3.get("params", [])}}
+                            body3 = {"params": [dict(p, did=mapping3[p["did"]]) for p in f3.get("params", [])], "body": _remap(f3["body"], mapping3), "captures": []}
+                        r3 = inl.block_for(fake3, body3)
+                        if r3 is not None:
+                            r3["inlined_helper"] = f3["qn"]
+                            r3["return_position"] = True
+                            return r3
                 core = strip(n)
                 # x = helper(args);   /   T v = helper(args);   with a helper made of statements and one final return
                 tgt_call = None
@@ -705,7 +729,7 @@ def inline_new_helpers(prog, inventory, repo_prefix):
                             r2["inlined_helper"] = f2["qn"]
                             return r2
                 hit, args = site(core)
-                if hit is None:
+                if hit is None or hit[2] == "return-only":
                     return n
                 f, pseudo, kind = hit
                 if f is g:
